@@ -324,6 +324,14 @@ def prop_history(case):
                   classes=[case['kind']] + (['two-changes-at-one-instant'] if ties else []) + (['tmin!=0'] if tmin != 0 else []))
 
 
+@st.composite
+def large_c10_case(draw, sim):
+    case = draw(simrun.large_case(sim))
+    if sim in simrun.DISCRETE:
+        case['p'] = draw(st.sampled_from([1.0, 1.0, 0.0]))
+    return case
+
+
 def replay(ctx, sub, case):
     if sub == 'constructed':
         return prop_history(case).failures
@@ -343,6 +351,7 @@ def run(ctx):
                        'discrete-time: tmax-tmin whole or infinite, deterministic rule']
     for sim in simrun.SIMS:
         run_hypothesis(ctx, 'modes', c10_case(sim), prop_case, 100 if quick else 4000, rounds=3)
+        run_hypothesis(ctx, 'large', large_c10_case(sim), prop_case, 20 if quick else 300, rounds=2, case_timeout=300)
     from . import c12
     run_hypothesis(ctx, 'discrete-table', c12.table_case(), prop_discrete_table, 400 if quick else 10000)
     run_hypothesis(ctx, 'constructed', history_case(), prop_history, 600 if quick else 20000, rounds=2)
